@@ -117,10 +117,12 @@ std::string OpRec::str() const {
     if (status >= 0) s += strf(" %s", status_name(status));
     s += strf(" ret=%llu", (unsigned long long)ret);
     if (!out.empty()) s += strf(" out[%zu]=%016llx", out.size(), (unsigned long long)fnv1a(out.data(), out.size()));
+    if (!out.empty() && getenv("POLYSIM_VERBOSE")) s += " outhex=" + hexs(out);
     if (lang_out != -2) s += strf(" lang=%d", lang_out);
     if (produced) s += " seed";
     if (input_modified) s += " INPUT-MODIFIED";
     if (guard_broken) s += " GUARD-BROKEN";
+    if (selftest_norms) s += strf(" selftest-normalisations=%llu", (unsigned long long)selftest_norms);
     if (!ev.empty()) {
         s += " |";
         // the self-test of an assertion-enabled build normalises every word: summarise runs of equal kinds
